@@ -34,11 +34,20 @@ type c09Case struct {
 	Plain   bool   `json:"plain_port"`
 	ViaCfg  bool   `json:"via_tls_config,omitempty"` // the server gets a ready tls.Config (SetTLSConfig) instead of certificate files
 	Burst   bool   `json:"burst,omitempty"`          // the faulty client and the next valid client connect concurrently
+	// Reconf: the trusted CA is replaced by another one after the server has run once
+	// ("ca-swap": Stop, SetTLSCaCertFile, Start; "ca-swap-restart": SetTLSCaCertFile,
+	// Restart; "cfg-replaced": the same through SetTLSConfig). From then on only
+	// certificates of the new CA are acceptable.
+	Reconf string `json:"reconfigured,omitempty"`
 	Choices []int  `json:"choices,omitempty"`
 }
 
 func (c c09Case) name() string {
-	return fmt.Sprintf("%s|%s|%s|between=%v|plain=%v|burst=%v|viacfg=%v", c.Config, c.Cred, c.Fault, c.Between, c.Plain, c.Burst, c.ViaCfg)
+	n := fmt.Sprintf("%s|%s|%s|between=%v|plain=%v|burst=%v|viacfg=%v", c.Config, c.Cred, c.Fault, c.Between, c.Plain, c.Burst, c.ViaCfg)
+	if c.Reconf != "" {
+		n += "|" + c.Reconf
+	}
+	return n
 }
 
 var c09Creds = []string{"none", "plain-text", "self-signed", "foreign-ca", "expired", "wrong-name", "name-on-intermediate", "wrong-name+forged-extra", "valid"}
@@ -54,6 +63,22 @@ func c09Accepted(config, cred string) bool {
 		return config == "norule"
 	}
 	return false
+}
+
+// accepted: must a client with this credential be served in this scenario?
+func (cs c09Case) accepted(cred string) bool {
+	if cs.Reconf != "" {
+		return cred == "foreign-ca" // CN=localhost under the CA trusted now
+	}
+	return c09Accepted(cs.Config, cred)
+}
+
+// goodCred is the credential of the well-behaved clients.
+func (cs c09Case) goodCred() string {
+	if cs.Reconf != "" {
+		return "foreign-ca"
+	}
+	return "valid"
 }
 
 // abortConn closes the connection at the first Read (i.e. right after the
@@ -214,6 +239,9 @@ func (w *c09World) body() {
 		s.SetTLSKeyFile(kit.ServerKey)
 		s.SetTLSCaCertFile(kit.CAFile)
 	}
+	if w.cs.Reconf == "cfg-replaced" {
+		s.SetTLSConfig(&tls.Config{MinVersion: tls.VersionTLS12, Certificates: []tls.Certificate{kit.ServerTLS}, ClientCAs: kit.Pool, ClientAuth: tls.RequireAndVerifyClientCert})
+	}
 	if w.cs.Config != "norule" {
 		s.AddAuthenticator(auth.NewCertificateAuthenticatorWith(auth.WithCommonName("localhost")))
 	}
@@ -228,18 +256,40 @@ func (w *c09World) body() {
 		vrt.Go(name, f)
 		vrt.WaitQuiet()
 	}
+	if w.cs.Reconf != "" {
+		// a client of the first CA is served, then the trusted CA is replaced
+		step("clientV0", func() { w.tlsClient("V0", "valid", "complete") })
+		var e error
+		switch w.cs.Reconf {
+		case "ca-swap":
+			s.Stop()
+			s.SetTLSCaCertFile(kit.ForeignCA)
+			e = s.Start()
+		case "ca-swap-restart":
+			s.SetTLSCaCertFile(kit.ForeignCA)
+			e = s.Restart()
+		case "cfg-replaced":
+			s.Stop()
+			s.SetTLSConfig(&tls.Config{MinVersion: tls.VersionTLS12, Certificates: []tls.Certificate{kit.ServerTLS}, ClientCAs: kit.ForeignPool, ClientAuth: tls.RequireAndVerifyClientCert})
+			e = s.Start()
+		}
+		if e != nil {
+			w.err = "second start: " + e.Error()
+			return
+		}
+	}
 	if w.cs.Between {
-		step("clientV1", func() { w.tlsClient("V1", "valid", "complete") })
+		step("clientV1", func() { w.tlsClient("V1", w.cs.goodCred(), "complete") })
 	}
 	if w.cs.Burst {
 		// both arrive while the accept loop is busy: their connections may sit in
 		// the backlog together and be accepted back to back
 		vrt.Go("clientF", func() { w.tlsClient("F", w.cs.Cred, w.cs.Fault) })
-		vrt.Go("clientV2", func() { w.tlsClient("V2", "valid", "complete") })
+		vrt.Go("clientV2", func() { w.tlsClient("V2", w.cs.goodCred(), "complete") })
 		vrt.WaitQuiet()
 	} else {
 		step("clientF", func() { w.tlsClient("F", w.cs.Cred, w.cs.Fault) })
-		step("clientV2", func() { w.tlsClient("V2", "valid", "complete") })
+		step("clientV2", func() { w.tlsClient("V2", w.cs.goodCred(), "complete") })
 	}
 	if w.cs.Plain {
 		step("clientP", func() { w.plainClient() })
@@ -281,7 +331,7 @@ func (w *c09World) verdict(r *vrt.Result) sched.Verdict {
 	}
 	// the faulty client
 	if f := find("F"); f != nil {
-		accepted := w.cs.Fault == "complete" && c09Accepted(w.cs.Config, w.cs.Cred)
+		accepted := w.cs.Fault == "complete" && w.cs.accepted(w.cs.Cred)
 		if !accepted && called("F") {
 			return fail("gate:command-executed-for-rejected-client", fmt.Sprintf("a command of the client with credential %q (fault %s, configuration %s) reached the handler", w.cs.Cred, w.cs.Fault, w.cs.Config))
 		}
@@ -297,13 +347,13 @@ func (w *c09World) verdict(r *vrt.Result) sched.Verdict {
 		}
 	}
 	// well-behaved TLS clients
-	for _, role := range []string{"V1", "V2"} {
+	for _, role := range []string{"V0", "V1", "V2"} {
 		v := find(role)
 		if v == nil {
 			continue
 		}
 		when := "after"
-		if role == "V1" {
+		if role == "V1" || role == "V0" {
 			when = "before"
 		}
 		if w.cs.Fault == "stall" && role == "V2" {
@@ -369,6 +419,14 @@ func c09Cases() []c09Case {
 			out = append(out, c09Case{Config: cfg, Cred: cred, Fault: "complete", Plain: true, ViaCfg: true})
 		}
 	}
+	// the trusted CA replaced between two runs of the same server object
+	for _, re := range []string{"ca-swap", "ca-swap-restart", "cfg-replaced"} {
+		for _, cfg := range c09Configs {
+			for _, cred := range []string{"valid", "foreign-ca", "wrong-name", "none"} {
+				out = append(out, c09Case{Config: cfg, Cred: cred, Fault: "complete", Plain: true, Reconf: re})
+			}
+		}
+	}
 	return out
 }
 
@@ -390,6 +448,9 @@ func c09Run(c *fw.Ctx) {
 }
 
 func c09Key(cs c09Case, clause string) string {
+	if cs.Reconf != "" {
+		return "C09|" + cs.Config + "|" + cs.Reconf + "|" + cs.Cred + "/" + cs.Fault + "|" + clause
+	}
 	return "C09|" + cs.Config + "|" + cs.Cred + "/" + cs.Fault + "|" + clause
 }
 
